@@ -218,6 +218,14 @@ Section Cli.
             end
         end
     end.
+  (* the driver after fixes/C19-no-output-file-on-error.diff (known finding F34): the no-script
+     error exit writes nothing, whether or not the inputs parse *)
+  Definition cli_run_fixed34 (m : mode) (out_file : bool) (stdin : option input_src)
+             (flags : list input_src) (prog : option (list stmt)) : cli_result :=
+    match m with
+    | MNoScript => cli_fail 1
+    | _ => cli_run m out_file stdin flags prog
+    end.
 End Cli.
 
 (* ------------------------------------------------------------------------------------------
